@@ -252,22 +252,43 @@ fn update_best_com(
     resolution: f64,
     directed: bool,
 ) {
+    let own_com = *best_com;
+    // what staying is worth, and the size of the numbers the gains are differences of
+    let mut stay = 0.0;
+    let mut stay_scale = 0.0;
+    let mut best_scale = 0.0;
     // visit the candidate communities in a fixed order: with hash-map order, exact ties between
     // candidates are broken differently on every call, so seeded runs differ and tied nodes can swap for ever
     for (nbr_com, wt) in weights2com.into_iter().sorted_by_key(|(com, _)| *com) {
-        let gain = match directed {
+        let penalty = match directed {
             true => {
-                wt - resolution
+                resolution
                     * (deg_info.out_degree * deg_info.stot_in[nbr_com]
                         + deg_info.in_degree * deg_info.stot_out[nbr_com])
                     / m
             }
-            false => 2.0 * wt - resolution * (deg_info.stot[nbr_com] * deg_info.degree) / m,
+            false => resolution * (deg_info.stot[nbr_com] * deg_info.degree) / m,
         };
+        let gain = match directed {
+            true => wt - penalty,
+            false => 2.0 * wt - penalty,
+        };
+        let scale = 2.0 * wt.abs() + penalty.abs();
+        if nbr_com == own_com && gain > stay {
+            stay = gain;
+            stay_scale = scale;
+        }
         if gain > *best_mod {
             *best_mod = gain;
             *best_com = nbr_com;
+            best_scale = scale;
         }
+    }
+    // a move must beat staying by more than the rounding noise of the two gains: candidates that tie
+    // exactly in real arithmetic can differ in the last bits, and nodes then swap communities for ever
+    if *best_com != own_com && *best_mod - stay <= 1e-10 * f64::max(best_scale, stay_scale) {
+        *best_com = own_com;
+        *best_mod = stay;
     }
 }
 
